@@ -98,8 +98,7 @@ func (x *Exec) doCall(st *State, fi int, c *ssa.CallCommon, site ssa.Instruction
 func (x *Exec) doCallWith(st *State, fi int, c *ssa.CallCommon, site ssa.Instruction, args []Value, fv Value, isDefer bool, k func(*State, Value)) {
 	fr := st.frames[fi]
 	name := x.calleeName(c, fv)
-	fr.callIdx[name]++
-	anchor := fmt.Sprintf("call %s#%d", name, fr.callIdx[name])
+	anchor := fmt.Sprintf("call %s#%d", name, x.siteOrdinal(fr.fn, site, name))
 	pos := site.Pos()
 	if !pos.IsValid() {
 		pos = c.Pos()
